@@ -27,6 +27,7 @@ pub struct Sys {
     pub seen_cmds: HashMap<String, u64>,
     pub router_csr: BgpsecCsr,
     pub full_obs: bool,
+    pub t0: i64,
     _rt: tokio::runtime::Runtime,
     scratch: Scratch,
 }
@@ -78,6 +79,10 @@ fn roa_config(spec: &str) -> RoaConfiguration {
     serde_json::from_value(v).expect("roa config")
 }
 
+pub fn unix_now() -> i64 {
+    std::time::SystemTime::now().duration_since(std::time::UNIX_EPOCH).map(|d| d.as_secs() as i64).unwrap_or(0)
+}
+
 fn err_kind(e: &Error) -> String {
     // the variant name of the error (Debug output up to the first delimiter)
     let d = format!("{e:?}");
@@ -88,7 +93,13 @@ fn err_kind(e: &Error) -> String {
 impl Sys {
     pub fn new(id: &str, cfg: &HashMap<String, String>) -> Self {
         let scratch = Scratch::new("system");
-        let disk = id.contains("disk");
+        Self::open(scratch, id.contains("disk"), id, cfg, true)
+    }
+
+    /// Opens a krill instance on `scratch` (its `data` sub-directory when `disk`). With `init`
+    /// the repository and the embedded trust anchor are created; without, the instance is
+    /// expected to find them in the storage (a restart).
+    pub fn open(scratch: Scratch, disk: bool, id: &str, cfg: &HashMap<String, String>, init: bool) -> Self {
         let storage_uri = if disk {
             StorageUri::disk(scratch.path().join("data"))
         } else {
@@ -122,23 +133,40 @@ impl Sys {
         let krill = SlowKrillRuntime::new(runtime);
         let actor = krill.system_actor().clone();
         krill::verif::sched::set_drain_mode(true);
-        let testbed = krill.config().testbed().expect("testbed").clone();
-        krill.repo_manager().init(testbed.publication_server_uris(), krill.runtime()).expect("repo init");
-        krill.ca_manager().ta_init_fully_embedded(
-            testbed.ta_aia().clone(), vec![testbed.ta_uri().clone()], None, &actor, &krill,
-        ).expect("ta init");
+        if init {
+            let testbed = krill.config().testbed().expect("testbed").clone();
+            krill.repo_manager().init(testbed.publication_server_uris(), krill.runtime()).expect("repo init");
+            krill.ca_manager().ta_init_fully_embedded(
+                testbed.ta_aia().clone(), vec![testbed.ta_uri().clone()], None, &actor, &krill,
+            ).expect("ta init");
+        }
         let router_csr = BgpsecCsr::decode(
             std::fs::read("/repo/test-resources/bgpsec/router-csr.der").expect("router csr").as_ref()
         ).expect("csr");
         Sys {
             krill, actor, canon: Canon::default(), seen_cmds: HashMap::new(), router_csr,
             full_obs: cfg.get("obs").map(|s| s != "min").unwrap_or(true),
+            t0: unix_now(),
             _rt: rt, scratch,
         }
     }
 
+    /// What the daemon does when it starts: re-queue running tasks, schedule the start task.
+    pub fn startup(&self) -> Result<(), Error> {
+        self.krill.tasks().reschedule_tasks_at_startup()?;
+        self.krill.tasks().schedule(Task::QueueStartTasks, krill::server::mq::now())
+    }
+
     pub fn scratch(&self) -> &Scratch {
         &self.scratch
+    }
+
+    /// Drops the instance (a "process death") and hands back its directory.
+    pub fn into_scratch(self) -> Scratch {
+        let Sys { krill, _rt, scratch, .. } = self;
+        drop(krill);
+        drop(_rt);
+        scratch
     }
 
     pub fn drain(&self) {
@@ -234,6 +262,7 @@ impl Sys {
                 self.drain();
                 Ok("ok".into())
             }
+            ["pump0"] => Ok("ok".into()),
             ["roa", ca, rest @ ..] => {
                 let mut added = vec![];
                 let mut removed = vec![];
@@ -336,6 +365,7 @@ impl Sys {
 
     pub fn exec(&mut self, op: &str) -> (String, String) {
         let w: Vec<&str> = op.split_whitespace().collect();
+        self.t0 = unix_now();
         let res = std::panic::catch_unwind(std::panic::AssertUnwindSafe(|| self.run_op(&w)));
         let ret = match res {
             Ok(Ok(s)) => s,
@@ -422,6 +452,8 @@ impl Sys {
         let mut o = Map::new();
         o.insert("ret".into(), Value::String(ret.to_string()));
         o.insert("cmds".into(), Value::Array(self.new_cmds()));
+        o.insert("t0".into(), Value::Number(self.t0.into()));
+        o.insert("now".into(), Value::Number(unix_now().into()));
         if !self.full_obs {
             return Value::Object(o);
         }
